@@ -422,4 +422,81 @@ theorem gcProj_length (gops : List GcOp) : (gcProj gops).length ≤ gops.length 
   | nil => simp [gcProj]
   | cons g rest ih => cases g <;> simp [gcProj] <;> omega
 
+/-! ### the rings the driver maintains step by step are the replay of the whole trace -/
+
+theorem replayR_append (maxCap : Nat) (a b : List QOp) :
+    ∀ q, replayR maxCap (a ++ b) q = (replayR maxCap a q).bind (replayR maxCap b) := by
+  induction a with
+  | nil => intro q; simp [replayR]
+  | cons op rest ih =>
+    intro q
+    simp only [List.cons_append, replayR]
+    cases op.onRing maxCap q with
+    | none => simp
+    | some q1 => simpa using ih q1
+
+theorem opsOn_cons (c c0 : Nat) (op : QOp) (t : List (Nat × QOp)) :
+    opsOn c ((c0, op) :: t) = if c0 = c then op :: opsOn c t else opsOn c t := by
+  by_cases h : c0 = c <;> simp [opsOn, h]
+
+theorem applyRings_chan (maxCap : Nat) (t : List (Nat × QOp)) :
+    ∀ rings : Nat → RingQ Nat, (∀ c, ∃ q, replayR maxCap (opsOn c t) (rings c) = some q) →
+      ∀ c, replayR maxCap (opsOn c t) (rings c) = some (applyRings maxCap rings t c) := by
+  induction t with
+  | nil => intro rings _ c; simp [opsOn, replayR, applyRings]
+  | cons p rest ih =>
+    obtain ⟨c0, op⟩ := p
+    intro rings hall c
+    obtain ⟨q0, hq0⟩ := hall c0
+    rw [opsOn_cons, if_pos rfl] at hq0
+    simp only [replayR] at hq0
+    cases ho : op.onRing maxCap (rings c0) with
+    | none => rw [ho] at hq0; simp at hq0
+    | some q1 =>
+      have hall' : ∀ c, ∃ q, replayR maxCap (opsOn c rest) ((fun i => if i = c0 then q1 else rings i) c) = some q := by
+        intro c'
+        by_cases hc : c' = c0
+        · subst hc; rw [ho] at hq0; exact ⟨q0, by simpa using hq0⟩
+        · obtain ⟨q, hq⟩ := hall c'
+          rw [opsOn_cons, if_neg (fun e => hc e.symm)] at hq
+          exact ⟨q, by simpa [hc] using hq⟩
+      have := ih _ hall' c
+      simp only [applyRings, ho]
+      rw [← this, opsOn_cons]
+      by_cases hc : c0 = c
+      · subst hc; simp [replayR, ho]
+      · have hc' : ¬ c = c0 := fun e => hc e.symm
+        simp [hc, hc']
+
+theorem runRings_replay (cfg : Cfg) (maxCap : Nat) (as : List Action) :
+    ∀ (w : World) (rings : Nat → RingQ Nat),
+      (∀ c, ∃ q, replayR maxCap (opsOn c (runOps cfg w as)) (rings c) = some q) →
+      ∀ c, replayR maxCap (opsOn c (runOps cfg w as)) (rings c) = some (runRings cfg maxCap w rings as c) := by
+  induction as with
+  | nil => intro w rings _ c; simp [runOps, opsOn, replayR, runRings]
+  | cons a rest ih =>
+    intro w rings hall c
+    have split : ∀ c, ∃ q1, replayR maxCap (opsOn c (stepOps cfg w a)) (rings c) = some q1 ∧
+        ∃ q, replayR maxCap (opsOn c (runOps cfg (step cfg w a).1 rest)) q1 = some q := by
+      intro c'
+      obtain ⟨q, hq⟩ := hall c'
+      simp only [runOps, opsOn_append, replayR_append] at hq
+      cases h1 : replayR maxCap (opsOn c' (stepOps cfg w a)) (rings c') with
+      | none => rw [h1] at hq; simp at hq
+      | some q1 => rw [h1] at hq; exact ⟨q1, rfl, q, by simpa using hq⟩
+    have hstep := applyRings_chan maxCap (stepOps cfg w a) rings (fun c' => ⟨(split c').choose, (split c').choose_spec.1⟩)
+    have hall' : ∀ c', ∃ q, replayR maxCap (opsOn c' (runOps cfg (step cfg w a).1 rest))
+        (applyRings maxCap rings (stepOps cfg w a) c') = some q := by
+      intro c'
+      obtain ⟨q1, h1, q, h2⟩ := split c'
+      rw [hstep c'] at h1
+      simp at h1; subst h1
+      exact ⟨q, h2⟩
+    have := ih (step cfg w a).1 (applyRings maxCap rings (stepOps cfg w a)) hall' c
+    simp only [runOps, opsOn_append, replayR_append, runRings, hstep c]
+    simpa using this
+
+theorem opsOn_length (c : Nat) (t : List (Nat × QOp)) : (opsOn c t).length ≤ t.length := by
+  simp [opsOn]; exact List.length_filter_le _ _
+
 end JanetModel.Ev
